@@ -104,6 +104,12 @@ def handle (req : Json) : Except String Json := do
   let ms ← (← natList (fieldD req "mlog" (Json.arr #[]))).mapM (fun i =>
     match mtbl[i]? with | some m => pure m | none => throw s!"member index {i} out of range")
   let scan := tableScan mtbl
+  let name ← natList (fieldD req "name" (Json.arr #[]))
+  -- entry point: the gzip test is the one extracted from the sink; when it disagrees with what the real sink wrote (reported
+  -- by the harness as A:gz-decision-sink) the data is interpreted the way the real file is
+  let isGz : GzPred := if Coba.Generated.C02Gz.sinkPred.eval name == gz then Coba.Generated.C02Gz.sinkPred
+                       else (if gz then GzPred.contains [] else GzPred.endsWith (name ++ [0]))
+  let textOf (data : Bytes) : Option Bytes := (entryText fl isGz scan ⟨name, true, some data⟩).join
   let outs ← cuts.mapM (fun c => do
     if gz then
       if ms.isEmpty then
@@ -112,10 +118,13 @@ def handle (req : Json) : Except String Json := do
         | _ => throw "gz cut: [j, torn] expected"
       else
         let data := (flatM ms).take (← nat c)
-        pure (outcomeJson tbl w L (gzText fl scan data) fl [("good", ofNat (memberScan scan data))])
+        pure (outcomeJson tbl w L (textOf data) fl [("good", ofNat (memberScan scan data))])
     else
-      pure (outcomeJson tbl w L (some (cut w L (← nat c))) fl))
-  let name ← natList (fieldD req "name" (Json.arr #[]))
+      let data := cut w L (← nat c)
+      pure (outcomeJson tbl w L (textOf data) fl [("n_complete", ofNat (nCompleteB w.c L data))]))
+  let wholeFile : Bytes := if gz && !ms.isEmpty then flatM ms else logFile w L
+  let nodir := (runEntry fl w isGz scan ⟨name, false, none⟩).isNone
+  let fromFileLog := fromFile w.c isGz scan name wholeFile
   pure (obj [("hyp", obj [("world_ok", Json.bool (tableWorldOK tbl ver exp triples)),
                           ("valid_log", Json.bool (validLogB w L)),
                           ("nonempty_i", Json.bool (nonEmptyIB w)),
@@ -125,6 +134,8 @@ def handle (req : Json) : Except String Json := do
              ("gz_decision", Json.arr #[Json.bool (Coba.Generated.C02Gz.sinkPred.eval name), Json.bool (Coba.Generated.C02Gz.sourcePred.eval name), Json.bool (Coba.Generated.C02Gz.repairPred.eval name)]),
              ("gz_extracted", Json.bool Coba.Generated.C02Gz.extracted),
              ("log_len", ofNat (logFile w L).length),
+             ("nodir_raises", Json.bool nodir),
+             ("from_file", Json.str (match fromFileLog with | none => "raise" | some F => if F == L then "log" else "other")),
              ("cuts", Json.arr outs.toArray)])
 
 end Coba.C02.Driver
